@@ -55,6 +55,10 @@ def real_history(ops):
             classes.append(cls)
             reg.register(cls)
             out.append(None)
+        elif op[0] == "reregister":
+            if classes:
+                reg.register(classes[op[1] % len(classes)])
+            out.append(None)
         elif op[0] == "lookup":
             got = reg.lookup(*[f"f{f}" for f in op[1]])
             out.append(None if got is None else classes.index(got))
@@ -86,6 +90,11 @@ def show(r):
     return "none" if r is None else f"some {r + 1}"
 
 
+def fname(n):
+    """feature ids -> names; id 7 is the EMPTY string (a legal, if odd, feature name: `features=""` is the request [""])"""
+    return "" if n == 7 else f"f{n}"
+
+
 def constructor_case(regs, builder_arg, features_arg, kw):
     """Run the real constructor against a private registry of harness builders."""
     import bs4
@@ -100,7 +109,7 @@ def constructor_case(regs, builder_arg, features_arg, kw):
             k.pop("verif_token", None)
             HTMLParserTreeBuilder.__init__(self, *a, **k)
         return type(f"HB{i}", (HTMLParserTreeBuilder,),
-                    {"features": [f"f{f}" for f in fs], "NAME": f"hb{i}", "ALTERNATE_NAMES": [], "__init__": __init__})
+                    {"features": [fname(f) for f in fs], "NAME": f"hb{i}", "ALTERNATE_NAMES": [], "__init__": __init__})
 
     classes = [mk(i, fs) for i, fs in enumerate(regs)]
     extra_cls = mk(99, [0])  # a class that is never registered (for explicit passing)
@@ -118,9 +127,11 @@ def constructor_case(regs, builder_arg, features_arg, kw):
     if features_arg[0] == "none":
         farg = None
     elif features_arg[0] == "str":
-        farg = f"f{features_arg[1]}"
+        farg = fname(features_arg[1])
+    elif features_arg[0] == "tuple":
+        farg = tuple(fname(f) for f in features_arg[1])
     else:
-        farg = [f"f{f}" for f in features_arg[1]]
+        farg = [fname(f) for f in features_arg[1]]
     saved_reg, saved_default = bs4.builder_registry, BeautifulSoup.DEFAULT_BUILDER_FEATURES
     bs4.builder_registry = reg
     BeautifulSoup.DEFAULT_BUILDER_FEATURES = ["f0", "f1"]
@@ -156,7 +167,7 @@ def model_ctor_line(regs, builder_arg, features_arg, kw):
     elif features_arg[0] == "str":
         f = f"str:{features_arg[1]}"
     else:
-        f = "list:" + fmt_list(features_arg[1])
+        f = "list:" + fmt_list(features_arg[1])          # a tuple is read like a list
     return f"c20 construct {fmt_regs(regs)} 0,1 {b} {f} {1 if kw else 0}"
 
 
@@ -198,8 +209,10 @@ def run(ctx: Ctx):
         ops = []
         for _ in range(r.randint(2, 10)):
             k = r.random()
-            if k < 0.35:
+            if k < 0.28:
                 ops.append(("register", r.choice(subsets)))
+            elif k < 0.38:
+                ops.append(("reregister", r.randint(0, 3)))          # the SAME class object again (an index into the classes made so far)
             elif k < 0.8:
                 ops.append(("lookup", tuple(r.choice((0, 1, 2, 9)) for _ in range(r.randint(0, 3)))))
             else:
@@ -209,15 +222,21 @@ def run(ctx: Ctx):
             q = tuple(r.choice((0, 1, 2)) for _ in range(r.randint(1, 3)))
             ops = [("lookup", q)] + ops + [("register", r.choice(subsets)), ("lookup", q)]
         res = real_history(ops)
-        regs = []
+        regs, cids, made = [], [], []          # registrations so far: feature sets, the class each registers; classes made so far
         bad = None
         for j, (op, out) in enumerate(zip(ops, res)):
             if op[0] == "register":
-                regs.append(op[1])
+                made.append(op[1]); regs.append(op[1]); cids.append(len(made) - 1)
+            elif op[0] == "reregister":
+                if made:
+                    c = op[1] % len(made)
+                    regs.append(made[c]); cids.append(c)
+                    ctx.count("interleaved:re-registrations")
             elif op[0] == "lookup":
-                want = spec_lookup(regs, op[1])
+                wi = spec_lookup(regs, op[1])
+                want = None if wi is None else cids[wi]          # the documented answer, as a class
                 ctx.count("interleaved:lookups")
-                lines.append(f"c20 lookup {fmt_regs(regs)} {fmt_list(op[1])}")
+                lines.append("c20 lookup " + (";".join(f"{c + 1}:" + ".".join(map(str, fs)) for c, fs in zip(cids, regs)) or "-") + f" {fmt_list(op[1])}")
                 impl.append(show(out))
                 cases.append((tuple(regs), op[1]))
                 if out != want and bad is None:
@@ -258,9 +277,11 @@ def run(ctx: Ctx):
                               case={"op": "shipped-lookup", "request": req}, expected=show(want), observed=show(goti), stream="shipped")
 
     # constructor
-    regsets = [(), ((0,),), ((0, 1),), ((0,), (0, 1)), ((0, 1), (0,)), ((2,),), ((0,), (1,)), ((0, 2), (1, 2), (0, 1, 2))]
+    regsets = [(), ((0,),), ((0, 1),), ((0,), (0, 1)), ((0, 1), (0,)), ((2,),), ((0,), (1,)), ((0, 2), (1, 2), (0, 1, 2)),
+               ((0, 1), (7,)), ((7, 0), (0, 1))]
     bargs = [("none",), ("cls",), ("inst",)]
-    fargs = [("none",), ("str", 0), ("str", 2), ("str", 9), ("list", ()), ("list", (0,)), ("list", (0, 1)), ("list", (1, 2)), ("list", (9,)), ("list", (2, 9))]
+    fargs = [("none",), ("str", 0), ("str", 2), ("str", 9), ("list", ()), ("list", (0,)), ("list", (0, 1)), ("list", (1, 2)), ("list", (9,)), ("list", (2, 9)),
+             ("str", 7), ("list", (7,)), ("list", (7, 0)), ("tuple", ()), ("tuple", (0, 1)), ("tuple", (7,))]
     clines, cimpl, ccases = [], [], []
     for regs in regsets:
         for ba in bargs:
@@ -292,20 +313,25 @@ def replay(path):
     if c.get("op") == "history":
         ops = [tuple(tuple(x) if isinstance(x, list) else x for x in o) for o in c["ops"]]
         res = real_history(ops)
-        regs, rc = [], 0
+        regs, cids, made, rc = [], [], [], 0
         for j, (op, out) in enumerate(zip(ops, res)):
             if op[0] == "register":
-                regs.append(op[1]); print(j, "register", op[1])
+                made.append(op[1]); regs.append(op[1]); cids.append(len(made) - 1); print(j, "register class", len(made) - 1, "features", op[1])
+            elif op[0] == "reregister":
+                if made:
+                    k = op[1] % len(made)
+                    regs.append(made[k]); cids.append(k); print(j, "register class", k, "AGAIN")
             elif op[0] == "lookup":
-                want = spec_lookup(regs, op[1])
-                print(j, "lookup", op[1], "->", show(out), " property demands:", show(want))
+                wi = spec_lookup(regs, op[1])
+                want = None if wi is None else cids[wi]
+                print(j, "lookup", op[1], "-> class", out, " property demands: class", want)
                 if out != want:
                     rc = 1
             else:
                 print(j, "read", op[1:], "(no effect on later answers)")
         return rc
     if c.get("op") == "construct":
-        got = constructor_case([tuple(x) for x in c["registrations"]], tuple(c["builder"]), tuple(c["features"]) if c["features"][0] != "list" else ("list", tuple(c["features"][1])), c["kwargs"])
+        got = constructor_case([tuple(x) for x in c["registrations"]], tuple(c["builder"]), tuple(c["features"]) if c["features"][0] not in ("list", "tuple") else (c["features"][0], tuple(c["features"][1])), c["kwargs"])
         print("implementation:", got, " property demands:", v.get("expected"))
         return 0 if got == v.get("expected") else 1
     print(json.dumps(v, indent=1))
